@@ -27,10 +27,8 @@ RULE = ("case = (method class, constraint set, speculative, split, first request
 ASSUMPTIONS = ["points of the pool are identical or separated by much more than the plug-in's allclose tolerance", "the scripted algorithm calls the callables the way SciPy does (1-D points; (V,S) batches for vectorized DE)"]
 EXHAUSTIVE = {"quick": True, "thorough": True}
 BOUNDS = {"quick": {"script_length": 3}, "thorough": {"script_length": 4}}
-REQUIRED = {"quick": {"scripts": 20000, "values_compared": 60000, "epochs_checked": 40000, "speculative_pairs_compared": 5000, "constraint_first_at_new_point": 3000,
-                      "gradient_first_at_new_point": 3000, "batch_requests": 1000, "real_method_runs": 40, "__nontrivial__": 150},
-            "thorough": {"scripts": 600000, "values_compared": 2000000, "epochs_checked": 1500000, "speculative_pairs_compared": 150000, "constraint_first_at_new_point": 100000,
-                         "gradient_first_at_new_point": 100000, "batch_requests": 30000, "real_method_runs": 800, "__nontrivial__": 1500}}
+REQUIRED = {"quick": {"scripts": 20000, "values_compared": 60000, "epochs_checked": 40000, "speculative_pairs_compared": 5000, "constraint_first_at_new_point": 3000, "gradient_first_at_new_point": 3000, "batch_requests": 1000, "real_method_runs": 36, "__nontrivial__": 150},
+            "thorough": {"scripts": 600000, "values_compared": 2000000, "epochs_checked": 1500000, "speculative_pairs_compared": 150000, "constraint_first_at_new_point": 100000, "gradient_first_at_new_point": 100000, "batch_requests": 30000, "real_method_runs": 600, "__nontrivial__": 1500}}
 
 V = 2
 POOL = np.array([[0.1, -0.2], [0.35, 0.15], [-0.3, 0.4]])
